@@ -315,6 +315,7 @@ func (i *interpreter) lookup(instr *ssa.Lookup, x, idx value) value {
 	switch x := x.(type) { // map
 	case *omap:
 		var v value
+
 		e := x.find(i, idx)
 		ok := e != nil
 		if ok {
@@ -990,6 +991,7 @@ func callBuiltin(caller *frame, callpos token.Pos, fn *ssa.Builtin, args []value
 		src := args[1].([]value)
 		cp := make([]value, len(src))
 		for k := range src {
+			i.memAccess(caller, &src[k], false)
 			cp[k] = copyVal(src[k])
 		}
 		return append(args[0].([]value), cp...)
@@ -1011,7 +1013,12 @@ func callBuiltin(caller *frame, callpos token.Pos, fn *ssa.Builtin, args []value
 			// overlapping copies behave like memmove: Go's copy on []value does that for us
 		}
 		tmp := make([]value, n)
+		_, srcIsSlice := args[1].([]value)
 		for k := 0; k < n; k++ {
+			if srcIsSlice {
+				i.memAccess(caller, &src[k], false)
+			}
+			i.memAccess(caller, &dst[k], true)
 			tmp[k] = copyVal(src[k])
 		}
 		copy(dst, tmp)
@@ -1025,6 +1032,7 @@ func callBuiltin(caller *frame, callpos token.Pos, fn *ssa.Builtin, args []value
 		switch m := args[0].(type) {
 		case *omap:
 			if m != nil {
+				i.memAccess(caller, m.loc(), true)
 				m.delete(i, args[1])
 			}
 		default:
@@ -1035,6 +1043,9 @@ func callBuiltin(caller *frame, callpos token.Pos, fn *ssa.Builtin, args []value
 	case "clear":
 		switch m := args[0].(type) {
 		case *omap:
+			if m != nil {
+				i.memAccess(caller, m.loc(), true)
+			}
 			m.clear()
 		case []value:
 			et := fn.Type().(*types.Signature).Params().At(0).Type().Underlying().(*types.Slice).Elem()
@@ -1074,6 +1085,9 @@ func callBuiltin(caller *frame, callpos token.Pos, fn *ssa.Builtin, args []value
 		case []value:
 			return len(x)
 		case *omap:
+			if x != nil {
+				caller.i.memAccess(caller, x.loc(), false)
+			}
 			return x.len()
 		case *channel:
 			return x.length()
